@@ -201,8 +201,12 @@ fn run_api(ac: &AhoCorasick, api: &str, hay: &str, an: bool) -> (&'static str, &
 
 pub fn run(out_prefix: &str) -> usize {
     let mut out = Out::create(out_prefix, 1);
-    let shapes_noempty: [&[&str]; 3] = [&["ab", "b"], &["xyz"], &["a", "ab", "abc", "c"]];
-    let shapes_empty: [&[&str]; 3] = [&["", "ab"], &["a", ""], &[""]];
+    // "pattern lists of the same shape": with / without the empty pattern; the lists vary in
+    // everything else (no patterns at all, one pattern, duplicates, nesting, many patterns)
+    let many: Vec<String> = (0..130).map(|i| format!("{}{}k", (b'!' + (i % 90) as u8) as char, i)).collect();
+    let many_ref: Vec<&str> = many.iter().map(|x| x.as_str()).collect();
+    let shapes_noempty: [&[&str]; 6] = [&["ab", "b"], &["xyz"], &["a", "ab", "abc", "c"], &[], &["dup", "dup", "du"], &many_ref];
+    let shapes_empty: [&[&str]; 6] = [&["", "ab"], &["a", ""], &[""], &["", ""], &["ab", "", "ab", ""], &["", "q", "qq", "qqq"]];
     let hays = ["", "xabcab", "zzzz"];
     let mut cells = 0usize;
     for mk in MKS {
